@@ -29,6 +29,8 @@ INVARIANT NoAlias
 CHECK_DEADLOCK FALSE
 """
 DT = 0.01
+OBSERVABLES = ["npts", "time", "fa_spectrum", "fa_frequencies", "smooth_fa_spectrum", "velocity", "displacement", "pga", "pgv", "pgd",
+               "s_a", "s_v", "s_d"]
 
 
 def digest(x):
@@ -51,6 +53,17 @@ def digest(x):
             upd(np.asarray(o.smooth_fa_freqs))
             if hasattr(o, "response_times"):
                 upd(np.asarray(o.response_times))
+            # every public observable of the object (reading them also fills the object's memo, so that a callee which
+            # scribbles on a memoised array or regenerates a spectrum with other settings is seen afterwards)
+            for name in OBSERVABLES:
+                if hasattr(type(o), name):
+                    try:
+                        with warnings.catch_warnings():
+                            warnings.simplefilter("ignore")
+                            v = getattr(o, name)
+                        upd(np.asarray(v))
+                    except Exception as ex:
+                        h.update(("raised:" + type(ex).__name__).encode())
         elif isinstance(o, (float, np.floating)):
             h.update(np.float64(o).tobytes())
         elif isinstance(o, (complex, np.complexfloating)):
